@@ -371,7 +371,7 @@ func c13Search() {
 			distinct.add(o.stats.TraceHash ^ hash64(sc.Module, sc.Start))
 		}
 		if len(sum.Samples) < 3 && o.stats.Switches > 2 {
-			sum.Samples = append(sum.Samples, map[string]interface{}{"seed": runSeed, "module": sc.Module, "start": sc.Start, "tasks": fmt.Sprint(sc.Tasks),
+			sum.Samples = append(sum.Samples, map[string]interface{}{"seed": fmt.Sprint(runSeed), "module": sc.Module, "start": sc.Start, "tasks": fmt.Sprint(sc.Tasks),
 				"switches": o.stats.Switches, "statements": o.stats.Steps, "blocked_on_mutex": o.stats.Blocked, "first_switches": traceStrings(o.trace, 6)})
 		}
 		if *flagSelf {
